@@ -26,6 +26,9 @@ def check(tier, seed):
                      "convert_if_zero(L_i^dagger A R_j) in the free matrix algebra for every block, including the Hermitian shortcut for lower blocks (valid under "
                      "A^dagger = A, L = R) and the implicit last block; _to_scalar_BlockSeries dispatches each type to its converter with arguments forwarded.  "
                      "Equivalence of eigenbases is an instance of the machine-checked naturality theorem.")
+    d.add_callsite_witness("callsite:formats/legacy-sparse-matrix-values-behave-like-arrays", "bd_battery.py", "spm_finding",
+                           "value types: the equivalence is proved for ndarray, sparse ARRAY and sympy values (element-wise contracts of masks and solver); values of the legacy scipy.sparse MATRIX "
+                           "classes turn into numpy.matrix when added to dense terms, for which `*` is a matrix product; the witness is replayed on every run")
     d.run_battery("rel_battery.py", ["formats"], "4 layouts x 11 container/value-type variants (list, dict with tuples or monomials, sympy matrix incl. analytic dependence, "
                   "BlockSeries, nested blocks; dense, sparse csr/coo/csc, mixed, sympy rationals), indices vs eigenvectors, random unitary and biorthogonal bases, "
                   "exact L^dagger A R check for n = 6, 11, 24, 48 with interleaved labels; orders <= 3")
